@@ -12,19 +12,29 @@ EXPLANATION = (
     "resolve's writes for <= 3 ranks x <= 2 methods. The unrestricted soundness clause fails on the pinned tree (F-lvl) and the tiebreak scope "
     "clause fails (F-tiebreak): open known findings with native witnesses. Native R-mode oracle suite as cross-check and concretiser."
 )
-ASSUMPTIONS = ["priorities are finite reals", "the type order restricted to the registered plain classes is a strict partial order (C12 class fragment) and the subtype test respects it (C13)"]
+ASSUMPTIONS = [
+    'MultiTypeMap.mro (mode U): each handler occurs at most once in a per-entry table (register stores it under one type per entry)',
+    'MultiTypeMap.mro (mode U): signatures have vararg=False (Signature.extract rejects *args; register creates the -1 table only for vararg signatures)',
+    'MultiTypeMap.mro (mode U): the key is non-empty (__missing__ answers () before calling resolve)',
+    "priorities are finite reals", "the type order restricted to the registered plain classes is a strict partial order (C12 class fragment) and the subtype test respects it (C13)"]
 TRUSTED = ["list.sort stability", "graphlib.TopologicalSorter operational model"]
 BOUNDS = {"e2e": "<=3 methods; call shapes (p), (p,p), (p,k); thorough adds 3 methods on 2 entries", "resolve": "<=3 ranks, <=2 methods per rank"}
 
 
 def tasks(tier):
-    t = _tm.sort_types_tasks() + _tm.typemap_tasks() + _tm.mtm_missing_tasks(("plain",)) + _tm.resolve_tasks(tier)
+    t = _tm.mro_unbounded_tasks() + _tm.candidate_tasks() + _tm.sort_types_tasks() + _tm.typemap_tasks() + _tm.mtm_missing_tasks(("plain",)) + _tm.resolve_tasks(tier)
     t += _tm.e2e_tasks(["complete", "sound_single_position", "sound_chain", "sound_unrestricted", "tiebreak_scope"], tier)
+    # "more specific" on plain classes is the subclass relation, with mutual subclasses (structurally identical protocols /
+    # ABCs) tied: the class fragment of typeorder (shared with C12)
+    from contracts import mro_c
+
+    t += [_tm.T("typeorder/class_fragment", mro_c.t_class_fragment), _tm.T("typeorder/mirror[Class,Class]/outside", mro_c.t_mirror("Class", "Class", "outside"))]
     return t
 
 
 def conformance(tier):
-    return [_tm.native_c02(perms=False)]
+    # resolution must follow the rule on every call of a history, not only on the first one
+    return [_tm.native_c02(perms=False), dict(name="native:c04", argv=["seq_suite.py", "c04"], violation_on_fail=True)]
 
 
 concretise = _tm.concretise_c02
